@@ -24,7 +24,10 @@ type MCase struct {
 	Runtime   bool           `json:"runtime"`
 	Principal string         `json:"principal"`
 	Args      map[string]any `json:"args"` // null: the request carries no "arguments" member
-	Shape     []string       `json:"shape,omitempty"`
+	// ArgsRaw, when set, is sent verbatim as the "arguments" member instead of Args (JSON text
+	// that is not an object: the request is malformed at the protocol level).
+	ArgsRaw string   `json:"args_raw,omitempty"`
+	Shape   []string `json:"shape,omitempty"`
 }
 
 // Contents used by the fixture and by generated config_apply / config_diff calls.
@@ -529,6 +532,10 @@ func genMCase(ix *rowIndex) *rapid.Generator[MCase] {
 		}
 		idx := list[rapid.IntRange(0, len(list)-1).Draw(t, "row")]
 		r := ix.rows[idx]
+		if rapid.IntRange(0, 39).Draw(t, "malformed") == 17 { // a mid-range value: rapid favours the bounds
+			raw := rapid.SampledFrom([]string{`[]`, `"x"`, `5`, `true`, `[{"path":"${OUT}/Hookaidofile"}]`, `"${CONFIG}"`}).Draw(t, "args_raw")
+			return MCase{Tool: r.Tool, Role: r.Role, Mutations: r.Mutations, Runtime: r.Runtime, Principal: r.Principal, ArgsRaw: raw, Shape: []string{"arguments-not-an-object"}}
+		}
 		args, shape := genArgs(t, r.Tool, r.Principal)
 		return MCase{Tool: r.Tool, Role: r.Role, Mutations: r.Mutations, Runtime: r.Runtime, Principal: r.Principal, Args: args, Shape: shape}
 	})
